@@ -53,8 +53,9 @@ DELIMS = [None, ",", "\t", " "]
 
 def _fname(ext=".rec"):
     _TMP[1] += 1
-    d = _TMP[0] or os.path.join(core.SCRATCH_ROOT, "esutil-verif-c03.%d" % os.getpid())
-    os.makedirs(d, exist_ok=True)
+    d = os.path.join(_TMP[0] or os.path.join(core.SCRATCH_ROOT, "esutil-verif-c03.%d" % os.getpid()), "p q \u00e9")
+    os.makedirs(d, exist_ok=True)           # (a directory name with blanks and a non-ASCII letter)
+    os.makedirs(os.path.join(os.path.dirname(d), "elsewhere"), exist_ok=True)
     # a small pool of names, reused by all histories of the run (each history removes its file when it is done): state that
     # the implementation carries across calls keyed by the file NAME (or name + size, name + mtime) collides
     return os.path.join(d, "h%d%s" % (_TMP[1] % 3, ext))
@@ -258,7 +259,8 @@ def reorder_chunk(r, ch, fields2):
 
 
 INCOMPAT = ["extra-field", "dropped-field", "renamed-field", "other-type", "other-size", "other-shape", "other-shape-same-rank",
-            "other-shape-other-rank", "shape-vs-scalar", "reordered-fields", "other-byte-order", "renamed-last-field", "other-type-last-field", "renamed-case-only", "wider-string", "narrower-string"]
+            "other-shape-other-rank", "shape-vs-scalar", "reordered-fields", "other-byte-order", "renamed-last-field", "other-type-last-field", "renamed-case-only", "wider-string", "narrower-string",
+            "swapped-names", "swapped-twin-fields"]
 
 
 def incompatible(r, fields, kind, textual):
@@ -285,6 +287,21 @@ def incompatible(r, fields, kind, textual):
             return None
         i = r.choice(shaped)
         f[i][2] = f[i][2] + [2] if r.random() < 0.5 else ([1] + f[i][2])
+        return f
+    if kind == "swapped-names":
+        # the same SET of names, the same types position by position: two fields exchange their names
+        if len(f) < 2:
+            return None
+        i, j = r.sample(range(len(f)), 2)
+        f[i][0], f[j][0] = f[j][0], f[i][0]
+        return f
+    if kind == "swapped-twin-fields":
+        # two fields of identical type and shape change places (equal descr apart from the order of the names)
+        tw = [(i, j) for i in range(len(f)) for j in range(i + 1, len(f)) if f[i][1:] == f[j][1:]]
+        if not tw:
+            return None
+        i, j = r.choice(tw)
+        f[i], f[j] = f[j], f[i]
         return f
     if kind in ("wider-string", "narrower-string"):
         cand = [j for j in range(len(f)) if f[j][1][1] == "S" and (kind == "wider-string" or int(f[j][1][2:]) > 1)]
@@ -422,33 +439,38 @@ class Builder:
     def _pick(self, pool):
         return self.r.choice(pool) if self.forms else pool[0]
 
+    PF = ["plain", "plain", "env", "env2", "tilde", "pathlib", "rel-here", "rel-up", "rel-side"]
+
+    def _pf(self):
+        return self._pick(self.PF)
+
     def create(self, dl="base", h="gen", c=None):
         c = self.chunk() if c is None else c
         self.ops.append({"k": "create", "dl": self.dl if dl == "base" else dl, "c": c, "hdr": self.hdr(h),
                          "view": self._view(c), "ctor": self._pick(["new", "new", "reuse", "Open", "reuse2"]), "kw": self._pick(["full", "minimal"]),
-                         "hobj": self._pick(["new", "same"])})
+                         "hobj": self._pick(["new", "same"]), "pf": self._pf()})
 
     def again(self, c=None, h=None):
         c = self.chunk() if c is None else c
         self.ops.append({"k": "again", "c": c, "hdr": self.hdr(h), "view": self._view(c), "kw": self._pick(["full", "minimal"]),
-                         "hobj": self._pick(["new", "same"])})
+                         "hobj": self._pick(["new", "same"]), "pf": self._pf()})
 
     def close(self):
         self.ops.append({"k": "close"})
 
     def reopen(self, dl="base"):
         self.ops.append({"k": "reopen", "dl": self.dl if dl == "base" else dl, "ctor": self._pick(["new", "new", "reuse", "Open", "reuse2"]),
-                         "kw": self._pick(["full", "minimal"])})
+                         "kw": self._pick(["full", "minimal"]), "pf": self._pf()})
 
     def fn(self, append, dl="base", h=None, c=None):
         c = self.chunk() if c is None else c
         self.ops.append({"k": "fn", "append": bool(append), "dl": self.dl if dl == "base" else dl, "c": c, "hdr": self.hdr(h),
                          "view": self._view(c), "via": self._pick(["sfile", "sfile", "swapped", "io"]), "kw": self._pick(["full", "minimal"]),
-                         "hobj": self._pick(["new", "same"])})
+                         "hobj": self._pick(["new", "same"]), "pf": self._pf()})
 
     def read(self, via=None):
         pool = ["fn", "fn", "cls", "slice", "io", "hdr"] + (["same", "same"] if SAME_HANDLE_READS else [])
-        self.ops.append({"k": "read", "via": via or self._pick(pool)})
+        self.ops.append({"k": "read", "via": via or self._pick(pool), "pf": self._pf()})
 
     def case(self, family, adv=True):
         return {"chunks": self.chunks, "ops": self.ops, "family": family, "adv": adv}
@@ -480,6 +502,10 @@ def adversarial(r, textual, dl):
     # incompatible appends, every family, function form and on an open object; then a compatible one
     for kind in INCOMPAT:
         b = B()
+        if kind == "swapped-twin-fields":       # a table with two fields of the same type
+            fs = gen_dtype(r, textual)
+            twin = [fs[0][0] + "_b", fs[0][1], list(fs[0][2])]
+            b = Builder(r, textual, dl, fs[:1] + [twin] + fs[1:3])
         f2 = incompatible(r, b.fields, kind, textual)
         for _ in range(60):
             if f2 is not None:
@@ -599,6 +625,23 @@ def same_size_overwrites(r, dl):
             b.fn(True, c=c3); b.read()
             b.reopen(); b.read("same"); b.again(c=c3); b.again(c=cold); b.close(); b.read()
             cs.append(b.case("adv:same-size-overwrite:%s:%s:%s" % (name, warm, tag)))
+    return cs
+
+
+def path_form_histories(r, dl):
+    """every operation of a create / append / reopen / read history with the file named in one of the accepted spellings
+    (the existence test, the header read, the open for appending and the read-back must all mean the same file)"""
+    textual = dl is not None
+    tag = "bin" if dl is None else {",": "csv", "\t": "tab", " ": "space"}[dl]
+    cs = []
+    for pf in ["env", "env2", "tilde", "pathlib", "rel-here", "rel-up", "rel-side"]:
+        b = Builder(r, textual, dl)
+        b.create(h={"spelled": pf}); b.again(); b.close(); b.fn(True); b.read(); b.reopen(); b.again(); b.read("same"); b.close()
+        b.fn(True); b.read(); b.fn(False, h={"again": pf}); b.fn(True); b.read()
+        for o in b.ops:
+            o["pf"] = pf if r.random() < 0.8 else r.choice(Builder.PF)
+        b.ops[3]["pf"] = pf          # the first append by reopening
+        cs.append(b.case("adv:path-form:%s:%s" % (pf, tag)))
     return cs
 
 
@@ -747,10 +790,57 @@ def run_history(case):
     import numpy as np
     import esutil.sfile as sfile
     import copy
+    import pathlib
     import esutil.io as eio
-    fname = _fname()
-    if os.path.exists(fname):
-        os.remove(fname)
+    real = _fname()
+    if os.path.exists(real):
+        os.remove(real)
+    fdir, fbase = os.path.dirname(real), os.path.basename(real)
+    saved = (os.getcwd(), os.environ.get("HOME"), os.environ.get("C03DIR"))
+    os.environ["C03DIR"] = fdir
+    os.environ["HOME"] = fdir
+
+    class _Name:
+        """the ONE file of the history, spelled per operation in one of the forms the module accepts: absolute, $VAR/..,
+        ${VAR}/.., ~/.. (HOME points at the directory), relative to a working directory that changes between
+        operations, pathlib.Path"""
+        form = "plain"
+
+        def get(self):
+            f = self.form
+            if f == "env":
+                return "$C03DIR/" + fbase
+            if f == "env2":
+                return "${C03DIR}/" + fbase
+            if f == "tilde":
+                return "~/" + fbase
+            if f == "pathlib":
+                return pathlib.Path(real)
+            if f == "rel-here":
+                os.chdir(fdir)
+                return fbase
+            if f == "rel-up":
+                os.chdir(os.path.dirname(fdir))
+                return os.path.join(os.path.basename(fdir), fbase)
+            if f == "rel-side":
+                os.chdir(os.path.join(os.path.dirname(fdir), "elsewhere"))
+                return os.path.join("..", os.path.basename(fdir), fbase)
+            return real
+    name = _Name()
+    try:
+        return _run_history(case, real, name, sfile, eio, np, copy)
+    finally:
+        os.chdir(saved[0])
+        for k, v in (("HOME", saved[1]), ("C03DIR", saved[2])):
+            if v is None:
+                os.environ.pop(k, None)
+            else:
+                os.environ[k] = v
+
+
+def _run_history(case, real, name, sfile, eio, np, copy):
+    fname = real
+    cur = [real]                      # the spelling of the file name used by the current operation
     sf = sfile.SFile()
     obs, texts = [], []
 
@@ -763,12 +853,12 @@ def run_history(case):
             if ctor == "reuse2":                 # ... after it was used for ANOTHER file (text, other dtype, other header)
                 sf.open(decoy, mode="r+")
                 sf.write(decoy_data)
-            sf.open(fname, mode=mode, **kw)
+            sf.open(cur[0], mode=mode, **kw)
             return sf
         sf.close()
         if ctor == "Open":                       # the deprecated alias
-            return sfile.Open(fname, mode, **kw)
-        return sfile.SFile(fname, mode, **kw) if not minimal else sfile.SFile(fname, mode=mode, **kw)
+            return sfile.Open(cur[0], mode, **kw)
+        return sfile.SFile(cur[0], mode, **kw) if not minimal else sfile.SFile(cur[0], mode=mode, **kw)
 
     # a second file of another dtype / form: an object that is re-used for `fname` may have been used for it before
     decoy = fname + ".decoy"
@@ -793,6 +883,8 @@ def run_history(case):
 
     for o in case["ops"]:
         k = o["k"]
+        name.form = o.get("pf", "plain")
+        cur[0] = name.get()
         hdr = ast.literal_eval(o["hdr"]) if o.get("hdr") is not None else None
         if hdr is not None and o.get("hobj") == "same":      # the same dict OBJECT as before, changed in place
             hdict.clear()
@@ -834,11 +926,11 @@ def run_history(case):
                     kw["append"] = o["append"]
                 via = o.get("via", "sfile")
                 if via == "io":                      # esutil.io.write for *.rec
-                    eio.write(fname, data_in, **kw)
+                    eio.write(cur[0], data_in, **kw)
                 elif via == "swapped":               # the documented (data, outfile) order
-                    sfile.write(data_in, fname, **kw) if isinstance(data_in, np.ndarray) else sfile.write(fname, data_in, **kw)
+                    sfile.write(data_in, cur[0], **kw) if isinstance(data_in, np.ndarray) else sfile.write(cur[0], data_in, **kw)
                 else:
-                    sfile.write(fname, data_in, **kw)
+                    sfile.write(cur[0], data_in, **kw)
             elif k == "read":
                 via = o.get("via", "fn")
                 if via == "same" and getattr(sf, "_robj", None) is not None and sf.get_mode() == "r+":
@@ -846,20 +938,20 @@ def run_history(case):
                     data, h = sf.read(header=True)
                     assert sf.nrows == h["_SIZE"] == len(sf._robj)
                 elif via == "cls":
-                    with sfile.SFile(fname) as rs:
+                    with sfile.SFile(cur[0]) as rs:
                         data, h = rs.read(header=True)
                 elif via == "slice":
-                    with sfile.SFile(fname) as rs:
+                    with sfile.SFile(cur[0]) as rs:
                         data = rs[:]
                         h = copy.deepcopy(rs.get_header())
                         assert rs.nrows == h["_SIZE"] and rs.dtype == data.dtype
                 elif via == "io":
-                    data, h = eio.read(fname, header=True)
+                    data, h = eio.read(cur[0], header=True)
                 elif via == "hdr":
-                    h = sfile.read_header(fname)
-                    data = sfile.read(fname)
+                    h = sfile.read_header(cur[0])
+                    data = sfile.read(cur[0])
                 else:
-                    data, h = sfile.read(fname, header=True)
+                    data, h = sfile.read(cur[0], header=True)
                 size = h.get("_SIZE")
                 ans = ["read", int(size) if isinstance(size, int) and not isinstance(size, bool) else -1,
                        fields_of(data.dtype) if (type(data) is np.ndarray and data.ndim == 1) else None,
@@ -937,6 +1029,8 @@ class History(Entry):
         if round == 0:
             for dl in DELIMS:
                 cs += adversarial(r, dl is not None, dl)
+            for dl in ([None, DELIMS[1 + ctx.seed % 3]] if ctx.quick() else DELIMS):
+                cs += path_form_histories(r, dl)
             sso = []
             for dl in DELIMS:
                 sso += same_size_overwrites(r, dl)
